@@ -9,7 +9,6 @@ import (
 	"strconv"
 	"strings"
 
-	hms "github.com/smarthome-go/homescript/v3/homescript"
 	"github.com/smarthome-go/homescript/v3/homescript/errors"
 	pAst "github.com/smarthome-go/homescript/v3/homescript/parser/ast"
 )
@@ -222,8 +221,8 @@ func Constructs(src map[string]string) (tags []string, nodes []string) {
 		add("multi-module")
 	}
 	for _, n := range names {
-		tree, soft, hard := hms.Parse(src[n], n)
-		if hard != nil || len(soft) > 0 {
+		tree, ok := parseClean(src[n]) // (recovers parser panics: this also runs in the supervisor)
+		if !ok {
 			add("unparseable-module")
 			continue
 		}
